@@ -31,6 +31,20 @@ def build_rlib(config):
     """Build libtriomphe.rlib for a feature configuration; returns (rlib path, deps dir)."""
     tdir = os.path.join(extract.CACHE, "wtarget", config)
     with extract.Lock("rlib-" + config):
+        # The target directory is shared by every analysed tree (scratch copies included). Cargo keeps one uplifted
+        # `libtriomphe.rlib` per directory and does not refresh it for a unit it considers fresh, so remove it (and the
+        # package's fingerprints) first: the rlib we link against is then always rebuilt from *this* tree.
+        dbg = os.path.join(tdir, "debug")
+        for f in ("libtriomphe.rlib", "libtriomphe.d", "libtriomphe.rmeta"):
+            try:
+                os.remove(os.path.join(dbg, f))
+            except OSError:
+                pass
+        fp = os.path.join(dbg, ".fingerprint")
+        if os.path.isdir(fp):
+            for d in os.listdir(fp):
+                if d.startswith("triomphe-"):
+                    shutil.rmtree(os.path.join(fp, d), ignore_errors=True)
         cmd = ["cargo", "+nightly", "build", "--offline", "--lib", "--manifest-path", os.path.join(extract.repo(), "Cargo.toml")] + extract.CONFIGS[config]
         r = extract._run(cmd, env={"CARGO_TARGET_DIR": tdir, "RUSTFLAGS": "-Awarnings"})
         if r.returncode != 0:
